@@ -274,8 +274,116 @@ def dfsxpOracle (ops : List POp) (qb : Aabb3 Float) (limit : Nat) (out : List St
             s!"fail {k} overlapping-leaf-missed-without-early-exit {i}"
   bad.getD "pass"
 
+/-! ## `mixq`, `mixb` (round fu4): long histories with interleaved queries and a shared workspace -/
+
+def pmix : P (List (Nat × Aabb3 Float × V3 Float) × List POp) := do
+  let cps ← plist (do let c ← pnat; let b ← pbox; let p ← pv3; pure (c, b, p))
+  let ops ← plist pop
+  pend
+  pure (cps, ops)
+
+/-- the model replays the history; after operation number `cut` it answers every checkpoint with that `cut` through the
+transliterated `intersect_aabb` (ordered), then goes on.  The update workspace is not part of the model state: `refit`
+and `rebalance` start with `workspace.clear()`, so the foreign tree sharing the workspace on the Rust side is invisible. -/
+def mixqModel (cps : List (Nat × Aabb3 Float × V3 Float)) (ops : List POp) : String := Id.run do
+  let mut w : World Float := World.empty
+  let mut out : Array String := #[]
+  let mut n := 0
+  for op in ops do
+    match stepModel w op with
+    | none =>
+      out := out.push "PANIC ;"
+      break
+    | some (w', _, _) =>
+      w := w'
+      n := n + 1
+      for (cut, qb, _) in cps do
+        if cut == n then
+          match intersectAabb w.q qb with
+          | some ids => out := out.push (" ".intercalate ("q" :: ids.map toString ++ [";"]))
+          | none => out := out.push "PANIC ;"
+  return " ".intercalate out.toList
+
+/-- no update is pending after the prefix: `F` settles, `I` / `R` unsettle, `B` keeps, `C` rebuilds every box afresh;
+a `B` on an unsettled tree (outside the documented domain of `rebalance`) voids the box clauses until the next `C` -/
+def settledAfter (ops : List POp) : Bool :=
+  let r := ops.foldl (fun (st : Bool × Bool) op => match op with
+    | .ins _ _ => (false, st.2)
+    | .rem _ => (false, st.2)
+    | .refit _ => (true, st.2)
+    | .rebalance _ => (st.1, st.2 || !st.1)
+    | .rebuild _ _ => (true, false)) (false, false)
+  r.1 && !r.2
+
+/-- Oracle for `mixq` / `mixb`: one answer per checkpoint, in order.  At every checkpoint whose prefix is settled the
+answer is judged by brute force over the leaves live at that moment (from the arguments alone): `intersect_aabb` reports
+every live leaf whose current box overlaps the query box, no dead leaf, nothing twice; the best-first search returns a
+live leaf at the exact minimum squared distance (`none` iff no leaf is live). -/
+def mixOracle (isq : Bool) (cps : List (Nat × Aabb3 Float × V3 Float)) (ops : List POp) (out : List String) : String := Id.run do
+  if out.contains "PANIC" then return "fail panic"
+  let segs := (splitSegs out).filter (fun s => !s.isEmpty)
+  if segs.length != cps.length then return s!"fail unparsable-output segments={segs.length} checkpoints={cps.length}"
+  let mut judged := 0
+  let mut k := 0
+  for ((cut, qb, pt), seg) in cps.zip segs do
+    let pre := ops.take cut
+    if settledAfter pre then
+      let live := liveAfter pre
+      if isq then
+        match seg with
+        | "q" :: rest =>
+          match rest.mapM String.toNat? with
+          | none => return s!"fail unparsable-output cp={k}"
+          | some ids =>
+            if ids.eraseDups.length != ids.length then return s!"fail leaf-reported-twice cp={k} op={cut}"
+            match ids.find? (fun i => !(live.any (·.1 == i))) with
+            | some i => return s!"fail dead-leaf-reported {i} cp={k} op={cut}"
+            | none =>
+              match live.find? (fun (i, bx) => overlapQ (qbox bx) (qbox qb) && !ids.contains i) with
+              | some (i, _) => return s!"fail overlapping-leaf-missed {i} cp={k} op={cut}"
+              | none => judged := judged + 1
+        | _ => return s!"fail unparsable-output cp={k}"
+      else
+        let P := q3 pt
+        let best : Option Rat := live.foldl (fun acc (_, bx) =>
+          let d := dist2Q P (qbox bx)
+          match acc with
+          | none => some d
+          | some m => some (min m d)) none
+        match seg with
+        | ["b", "none"] =>
+          if best.isSome then return s!"fail nothing-found-although-leaves-exist cp={k} op={cut}"
+          judged := judged + 1
+        | ["b", c, i] =>
+          match pfloatTok c, i.toNat?, best with
+          | some cost, some id, some m =>
+            match live.find? (·.1 == id) with
+            | none => return s!"fail dead-leaf-returned {id} cp={k} op={cut}"
+            | some (_, bx) =>
+              let d := dist2Q P (qbox bx)
+              let cq := q cost
+              if !(leTol d cq tolDefault && leTol cq d tolDefault) then return s!"fail cost-differs-from-leaf-distance {id} cp={k}"
+              if !(leTol d m tolDefault) then return s!"fail not-the-nearest-leaf {id} cp={k} op={cut}"
+              judged := judged + 1
+          | _, _, none => return s!"fail leaf-returned-from-empty-tree cp={k} op={cut}"
+          | _, _, _ => return s!"fail unparsable-output cp={k}"
+        | _ => return s!"fail unparsable-output cp={k}"
+    k := k + 1
+  if judged == 0 then return "skip no-settled-checkpoint"
+  return "pass"
+
 def handlerExt (fn : String) : Option Handler :=
   match fn with
+  | "mixq" => some {
+      model := fun a => (run pmix a).map fun (cps, ops) => mixqModel cps ops
+      oracle := fun a o => match run pmix a with
+        | some (cps, ops) => mixOracle true cps ops o
+        | none => "skip bad-args" }
+  | "mixb" => some {
+      model := fun _ => some "-"
+      oracle := fun a o => match run pmix a with
+        | some (cps, ops) => mixOracle false cps ops o
+        | none => "skip bad-args" }
   | "topo" => some {
       model := fun a => (run phist a).map topoModel
       oracle := fun a o => match run phist a with
